@@ -44,7 +44,7 @@ def build() -> Check:
         "every field is written, written and read under the same key, enum fields go .value <-> Enum(...), nested models go to_dict/inline <-> from_dict of the "
         "same class, a value the writer can emit as an empty dictionary is not treated as absent by a truthiness test, and the JSON variants convert exactly "
         "the datetime-annotated paths in both directions.",
-        ["value conversions inside one field (Enum(value)) and the arithmetic on the scalar timestamp are trusted; the datetime APIs used by the two scalar conversions are judged against a table of offset-dropping calls",
+        ["value conversions inside one field (Enum(value)) are trusted; the arithmetic on the scalar timestamp is judged for exactness (no float division / truncation) and the datetime APIs used by the two scalar conversions against a table of offset-dropping calls",
          "the wire form omits empty optional strings (allowed by the statement)"],
         "one obligation per (rule, class, field)",
     )
